@@ -43,6 +43,18 @@ Slicer.vos Slicer.vok Slicer.required_vos: Slicer.v Base.vos Plate.vos
 SlicerThm.vo SlicerThm.glob SlicerThm.v.beautified SlicerThm.required_vo: SlicerThm.v Base.vo Plate.vo Slicer.vo
 SlicerThm.vio: SlicerThm.v Base.vio Plate.vio Slicer.vio
 SlicerThm.vos SlicerThm.vok SlicerThm.required_vos: SlicerThm.v Base.vos Plate.vos Slicer.vos
+Lifecycle.vo Lifecycle.glob Lifecycle.v.beautified Lifecycle.required_vo: Lifecycle.v Base.vo GenBase.vo
+Lifecycle.vio: Lifecycle.v Base.vio GenBase.vio
+Lifecycle.vos Lifecycle.vok Lifecycle.required_vos: Lifecycle.v Base.vos GenBase.vos
+LifecycleThm.vo LifecycleThm.glob LifecycleThm.v.beautified LifecycleThm.required_vo: LifecycleThm.v Base.vo Lifecycle.vo
+LifecycleThm.vio: LifecycleThm.v Base.vio Lifecycle.vio
+LifecycleThm.vos LifecycleThm.vok LifecycleThm.required_vos: LifecycleThm.v Base.vos Lifecycle.vos
+gen/LifecycleGen.vo gen/LifecycleGen.glob gen/LifecycleGen.v.beautified gen/LifecycleGen.required_vo: gen/LifecycleGen.v Base.vo GenBase.vo
+gen/LifecycleGen.vio: gen/LifecycleGen.v Base.vio GenBase.vio
+gen/LifecycleGen.vos gen/LifecycleGen.vok gen/LifecycleGen.required_vos: gen/LifecycleGen.v Base.vos GenBase.vos
+LifecycleGenOK.vo LifecycleGenOK.glob LifecycleGenOK.v.beautified LifecycleGenOK.required_vo: LifecycleGenOK.v Base.vo GenBase.vo Lifecycle.vo LifecycleThm.vo gen/LifecycleGen.vo
+LifecycleGenOK.vio: LifecycleGenOK.v Base.vio GenBase.vio Lifecycle.vio LifecycleThm.vio gen/LifecycleGen.vio
+LifecycleGenOK.vos LifecycleGenOK.vok LifecycleGenOK.required_vos: LifecycleGenOK.v Base.vos GenBase.vos Lifecycle.vos LifecycleThm.vos gen/LifecycleGen.vos
 ContainerThm2.vo ContainerThm2.glob ContainerThm2.v.beautified ContainerThm2.required_vo: ContainerThm2.v Base.vo Units.vo UnitsThm.vo Contents.vo Container.vo ContainerThm.vo
 ContainerThm2.vio: ContainerThm2.v Base.vio Units.vio UnitsThm.vio Contents.vio Container.vio ContainerThm.vio
 ContainerThm2.vos ContainerThm2.vok ContainerThm2.required_vos: ContainerThm2.v Base.vos Units.vos UnitsThm.vos Contents.vos Container.vos ContainerThm.vos
@@ -79,3 +91,6 @@ Props/C17.vos Props/C17.vok Props/C17.required_vos: Props/C17.v Base.vos Units.v
 Props/C13.vo Props/C13.glob Props/C13.v.beautified Props/C13.required_vo: Props/C13.v Base.vo Plate.vo Slicer.vo SlicerThm.vo
 Props/C13.vio: Props/C13.v Base.vio Plate.vio Slicer.vio SlicerThm.vio
 Props/C13.vos Props/C13.vok Props/C13.required_vos: Props/C13.v Base.vos Plate.vos Slicer.vos SlicerThm.vos
+Props/C16.vo Props/C16.glob Props/C16.v.beautified Props/C16.required_vo: Props/C16.v Base.vo GenBase.vo Lifecycle.vo LifecycleThm.vo gen/LifecycleGen.vo LifecycleGenOK.vo
+Props/C16.vio: Props/C16.v Base.vio GenBase.vio Lifecycle.vio LifecycleThm.vio gen/LifecycleGen.vio LifecycleGenOK.vio
+Props/C16.vos Props/C16.vok Props/C16.required_vos: Props/C16.v Base.vos GenBase.vos Lifecycle.vos LifecycleThm.vos gen/LifecycleGen.vos LifecycleGenOK.vos
